@@ -48,7 +48,8 @@ from harness.lib_states import KINDS as CONTAINERS, pack
 
 LEAN = {
     'C01': ['MlModel.Properties.C01.History'],
-    'C11': ['MlModel.Properties.C11.MergeStates', 'MlModel.Witness.C11MergeStates', 'MlModel.Properties.C11.History'],
+    'C11': ['MlModel.Properties.C11.MergeStates', 'MlModel.Properties.C11.ClassificationMergeStates',
+            'MlModel.Witness.C11MergeStates', 'MlModel.Properties.C11.History'],
 }
 
 FAMILIES = H.FAMILIES
